@@ -224,7 +224,7 @@ def run_case(case):
             ok(tuple(y.shape) == (shape[0],), "sum_except_batch", "utils.sum_except_batch default keeps batch",
                shape=list(shape))
         empty_leading(r, ok, "sum_except_batch", lambda x, n: tu.sum_except_batch(x, min(n, x.dim())),
-                      lambda x, n: x.reshape(x.shape[:min(n, x.ndim)] + (-1,)).sum(-1))
+                      lambda x, n: np.zeros(x.shape[:min(n, x.ndim)]))
         r.sample({"fn": "sum_except_batch", "shape": list(shapes[-1]), "k": 1})
 
     elif g == "searchsorted":
